@@ -718,5 +718,16 @@ def r8_matcher_siblings(chk: Check) -> None:
     chk.decide(True if rets.startswith("all(") else (False if rets.startswith("any(") else None), "C07.R8", fm, "a filter matches when all its matchers match", "`any`: a filter `method=GET && path_regex=^/users` selects every GET operation and everything under /users", fm.loc())
 
 
+def r9_memo(chk: Check) -> None:
+    from . import shared
+
+    P = chk.project
+    mods = ('filters.py', 'schemas.py', 'specs/openapi/schemas.py', 'specs/openapi/stateful/__init__.py', 'specs/graphql/schemas.py', 'cli/commands/run/filters.py', 'pytest/lazy.py')
+    # (the GraphQL operation cache is decided, with its named suppressions, by C20.R1b)
+    fns = [f for m in mods if m in P.by_relpath and m != "specs/graphql/schemas.py" for f in P.module(m).functions.values() if not isinstance(f.node, ast.Lambda)]
+    shared.memo_key_rule(chk, "C07.R9", fns, {("_set_cache_entry", "data"): "a setter: the value to store is handed in by get(), which computed it for this key", ("_get_body_strategy", "operation"): "a parameter belongs to exactly one operation (stated next to the cache)"},
+                         "MEMO-KEY(anchor modules of this property): which operations are selected is decided from the current filters and the current schema: a cache keyed by less than that answers for another filter set / another schema", floor=0)
+
+
 def rules(tier: str) -> list:  # type: ignore[type-arg]
-    return [r1_enumerators, r1b_should_skip, r1c_filterset, r2_links, r3_entry_points, r4_statistic, r4b_filter_input, r4c_statistic_isolates_operations, r5_cli_plumbing, r6_filter_ownership, r7_documented_methods, r8_matcher_siblings, rfwd_forwarding]
+    return [r1_enumerators, r1b_should_skip, r1c_filterset, r2_links, r3_entry_points, r4_statistic, r4b_filter_input, r4c_statistic_isolates_operations, r5_cli_plumbing, r6_filter_ownership, r7_documented_methods, r8_matcher_siblings, rfwd_forwarding, r9_memo]
